@@ -93,11 +93,71 @@ pub fn split_frames(bytes: &[u8], base: usize) -> (Vec<RawFrame>, usize, Option<
     }
 }
 
+/// amq-protocol 1.4's generated *parser* looks flags up under the wrong name when the AMQP
+/// flag name contains a hyphen (no-ack, no-local, if-unused, if-empty, auto-delete) and so
+/// always reads them as false (its generator is correct). The affected methods are all
+/// client->server; their flag octet is decoded by hand here.
+fn fix_hyphenated_flags(raw: &RawFrame, frame: &mut AMQPFrame) {
+    use amq_protocol::protocol::basic::AMQPMethod as B;
+    use amq_protocol::protocol::exchange::AMQPMethod as E;
+    use amq_protocol::protocol::queue::AMQPMethod as Q;
+    use amq_protocol::protocol::AMQPClass as C;
+    let p = &raw.payload;
+    // payload: class(2) method(2) ticket(2) then `n_str` short strings, then the flag octet
+    let flag_after = |n_str: usize| -> Option<u8> {
+        let mut pos = 6usize;
+        for _ in 0..n_str {
+            let l = *p.get(pos)? as usize;
+            pos += 1 + l;
+        }
+        p.get(pos).copied()
+    };
+    let bit = |b: u8, i: u8| b & (1 << i) != 0;
+    if let AMQPFrame::Method(_, class) = frame {
+        match class {
+            C::Queue(Q::Declare(d)) => {
+                if let Some(b) = flag_after(1) {
+                    d.auto_delete = bit(b, 3);
+                }
+            }
+            C::Queue(Q::Delete(d)) => {
+                if let Some(b) = flag_after(1) {
+                    d.if_unused = bit(b, 0);
+                    d.if_empty = bit(b, 1);
+                }
+            }
+            C::Exchange(E::Declare(d)) => {
+                if let Some(b) = flag_after(2) {
+                    d.auto_delete = bit(b, 2);
+                }
+            }
+            C::Exchange(E::Delete(d)) => {
+                if let Some(b) = flag_after(1) {
+                    d.if_unused = bit(b, 0);
+                }
+            }
+            C::Basic(B::Consume(c)) => {
+                if let Some(b) = flag_after(2) {
+                    c.no_local = bit(b, 0);
+                    c.no_ack = bit(b, 1);
+                }
+            }
+            C::Basic(B::Get(g)) => {
+                if let Some(b) = flag_after(1) {
+                    g.no_ack = bit(b, 0);
+                }
+            }
+            _ => {}
+        }
+    }
+}
+
 pub fn decode_raw(raw: &RawFrame) -> Result<AMQPFrame, String> {
     let bytes = raw.bytes();
     match parse_frame(&bytes) {
-        Ok((rest, frame)) => {
+        Ok((rest, mut frame)) => {
             if rest.is_empty() {
+                fix_hyphenated_flags(raw, &mut frame);
                 Ok(frame)
             } else {
                 Err(format!("{} trailing bytes inside frame payload", rest.len()))
@@ -198,22 +258,30 @@ impl StreamDecoder {
     }
     /// Consume what is decodable from `out` (the full stream so far) beyond what was consumed.
     pub fn feed(&mut self, out: &[u8]) -> Vec<(RawFrame, AMQPFrame)> {
+        self.feed_from(out, 0)
+    }
+
+    /// Like `feed`, but `data` is the stream from absolute offset `base` (<= pos()) onwards.
+    pub fn feed_from(&mut self, data: &[u8], base: usize) -> Vec<(RawFrame, AMQPFrame)> {
         let mut res = Vec::new();
         if self.error.is_some() {
             return res;
         }
         if !self.saw_header {
-            if out.len() < 8 {
+            if base != 0 || data.len() < 8 {
                 return res;
             }
-            if &out[..8] != PROTOCOL_HEADER {
+            if &data[..8] != PROTOCOL_HEADER {
                 self.error = Some("bad protocol header".into());
                 return res;
             }
             self.saw_header = true;
             self.pos = 8;
         }
-        let (raws, used, err) = split_frames(&out[self.pos..], self.pos);
+        if self.pos < base || self.pos - base > data.len() {
+            return res;
+        }
+        let (raws, used, err) = split_frames(&data[self.pos - base..], self.pos);
         self.pos += used;
         for raw in raws {
             match decode_raw(&raw) {
